@@ -552,3 +552,30 @@ Proof.
   exact (wide_prefix_placement_equiv cs ic (guard_wide2_parser_ok cs ic inv G)
            (guard_wide2_names_plain cs ic inv G) os calls1 t asn items1 items2 calls2 c G).
 Qed.
+
+(** ** The shadowing clause: "... unless that task declares a flag of the same
+    name (which then receives it)".  [program_wide_front] does not ask the task
+    flags of [inv] to differ from the core flags: whatever flags the tasks
+    share with the initial context -- even with options of the prefix [os] --
+    the core values are a function of [os] alone and every task receives
+    exactly its expected arguments.  Instance: task "test" declares -e
+    (exclude) and -f (fast), the core context -e (echo) and -f (config). *)
+Example shadowing_example :
+  let cs := [ex_build; ex_test] in
+  let inv := [mkCall 1 "test" [One (mkOcc 0 1 FNext (VS "a")); One (mkOcc 1 1 FBare (VB true))]] in
+  guard_wide2 cs core_ctx inv = true /\
+  spell cs inv = ["test"; "-e"; "a"; "-f"] /\
+  (exists i r, find_flag (rc_args (init_ctx core_ctx)) "-e" = Some i /\
+               nth_error (rc_args (init_ctx core_ctx)) i = Some r /\ arg_name (r_spec r) = "echo") /\
+  (exists i r, find_flag (rc_args (init_ctx core_ctx)) "-f" = Some i /\
+               nth_error (rc_args (init_ctx core_ctx)) i = Some r /\ arg_name (r_spec r) = "config") /\
+  exists g, prog_obs core_ctx cs ["-e"; "test"; "-e"; "a"; "-f"] = Ok g /\
+            kw_get "echo" (g_core g) = Some (ABool true) /\
+            kw_get "config" (g_core g) = Some ANone /\
+            g_tasks g = [(Some "test", [("exclude", AList ["a"]); ("fast", ABool true)])].
+Proof.
+  cbv zeta. split; [vm_compute; reflexivity|]. split; [vm_compute; reflexivity|].
+  split; [do 2 eexists; repeat split; vm_compute; reflexivity|].
+  split; [do 2 eexists; repeat split; vm_compute; reflexivity|].
+  eexists. split; [vm_compute; reflexivity|]. repeat split; vm_compute; reflexivity.
+Qed.
